@@ -11,6 +11,7 @@ import (
 type OracleFailure struct {
 	What     string      `json:"what"`
 	Scenario interface{} `json:"scenario"`
+	Key      string      `json:"key,omitempty"` // set for the fixed regression scenarios (regress.go)
 }
 
 type Report struct {
@@ -40,6 +41,10 @@ func (r *Report) fail(what string, scenario interface{}) {
 	if len(r.OracleFailures) < 50 {
 		r.OracleFailures = append(r.OracleFailures, OracleFailure{What: what, Scenario: scenario})
 	}
+}
+
+func (r *Report) failKey(key, what string, scenario interface{}) {
+	r.OracleFailures = append(r.OracleFailures, OracleFailure{What: what, Scenario: scenario, Key: key})
 }
 
 func (r *Report) sample(s interface{}) {
